@@ -15,12 +15,16 @@ CLAIMED = {
          "CFG dominance / lock-pair rules + enumerated claim tables on fiber_cond.c and the enqueue helper"),
  "C06": ("wait/trywait/post decision tables over the counter value and wake result, increment-after-wake order, no exit without wake-or-increment, counter-writer table, waker count semantics",
          "enumerated forced-branch tables over atomic results + CFG dominance rules on fiber_semaphore.c"),
+ "C07": ("transition rows of all six lock/unlock/try functions interpreted over enumerated legal snapshots of the packed state word; policy-independent row conditions (exclusion, no stranded waiter, count<->action agreement, ownership transfer in the same CAS, CAS on the whole snapshot, re-snapshot on failure, try variants never park)",
+         "word-level interpretation of locals/bit-fields over an enumerated snapshot domain (TABLE) + who-may-write rule on fiber_rwlock.c"),
  "C08": ("fd-table bounds followed inter-procedurally from the libc shims, should_block truth table, F_SETFL/FIONBIO mode tables, retry-template agreement of all shims under enumerated scenarios, fd>=0 comparisons, shim pointer resolution, close/poller lock and order rules",
          "inter-procedural forced-branch reachability over enumerated descriptor classes and scenarios (BOUNDS / TABLE / SIBLING rules) on fiber_io.c and fiber_event_native.c"),
  "C09": ("sleep registration under the sleep lock with deferred unlock, poller lock/unlink/no-touch rules, strict expiry comparison table, deadline arithmetic evaluated with C integer widths over boundary durations, unit conversion and routing tables of sleep/usleep/nanosleep",
          "CFG lock-pair / dominance rules, reaching-definition NOTOUCH dataflow, enumerated arithmetic tables with C widths"),
  "C12": ("arrival table over (count, arrival number): serial path, wake count, return values; counter-writer table; round-separation certificate with an enumerated list-selection table",
          "enumerated forced-branch tables + certificate recognition on fiber_barrier.c and the shared waker"),
+ "C18": ("ticket-lock tables (wait-loop exit, ticket+1), memory orders, trylock word construction interpreted over snapshots incl. wrap-around, record layout of the two halves, writers table",
+         "enumerated tables + word-level interpretation + record-layout facts on fiber_spinlock.c"),
  "C10": ("fairness certificate: push/pop deque fields differ, swap only on empty, successor re-queue",
          "CFG/AST who-pushes-where + guarded-swap rules over the scheduler"),
 }
